@@ -47,6 +47,22 @@ def _slot_of(t: Term, self_t: Term) -> Optional[Tuple[str, str]]:
     return None
 
 
+def _stringy(t: Term) -> bool:
+    if isinstance(t, Const):
+        return isinstance(t.value, str)
+    if isinstance(t, (Template, Fmt)):
+        return True
+    if isinstance(t, Call) and isinstance(t.func, Ext) and t.func.name in ('str', 'repr'):
+        return True
+    if isinstance(t, Call) and isinstance(t.func, Attr) and t.func.name == 'join':
+        return True
+    if isinstance(t, Op) and t.op == '+':
+        return any(_stringy(a) for a in t.args)
+    if isinstance(t, Ite):
+        return _stringy(t.a) or _stringy(t.b)
+    return False
+
+
 def flatten(t: Term, self_t: Term) -> List[Tuple[Tuple, List[Tuple]]]:
     """all alternatives of a printed term: [(guards, token list)]"""
     if isinstance(t, Const):
@@ -68,9 +84,26 @@ def flatten(t: Term, self_t: Term) -> List[Tuple[Tuple, List[Tuple]]]:
             sub = flatten(p, self_t)
             alts = [(g1 + g2, s1 + s2) for g1, s1 in alts for g2, s2 in sub]
         return alts
+    if isinstance(t, Op) and t.op == '+' and any(_stringy(a) for a in t.args):
+        # string concatenation
+        alts2: List[Tuple[Tuple, List[Tuple]]] = [((), [])]
+        for p in t.args:
+            sub = flatten(p, self_t)
+            alts2 = [(g1 + g2, s1 + s2) for g1, s1 in alts2 for g2, s2 in sub]
+        return alts2
     if isinstance(t, Call) and isinstance(t.func, Attr) and t.func.name == 'join' and isinstance(t.func.base, Const) and t.args:
         sep = _tok_words(str(t.func.base.value))
         src = t.args[0]
+        if isinstance(src, TupleT):
+            # sep.join((a, b, c)): the parts interleaved with the separator
+            alts3: List[Tuple[Tuple, List[Tuple]]] = [((), [])]
+            for i, p in enumerate(src.items):
+                sub = flatten(p, self_t)
+                pre = [('w', w) for w in sep] if i else []
+                alts3 = [(g1 + g2, s1 + pre + s2) for g1, s1 in alts3 for g2, s2 in sub]
+            return alts3
+        if isinstance(src, Call) and isinstance(src.func, Ext) and src.func.name == 'map' and len(src.args) == 2 and src.args[0] == Ext('str'):
+            src = Comp('gen', Sym('each:<item>'), (('<item>', src.args[1], ()),))
         if isinstance(src, Comp) and len(src.gens) == 1:
             tgt, it, ifs = src.gens[0]
             each = Sym(f'each:{tgt}')
